@@ -20,7 +20,7 @@ CLAIM = {
  "C12": "Lean theorems stating the binder's decision logic outright: too many arguments / too few for a variadic ⇒ error with nothing evaluated; arguments are evaluated left to right and binding stops at the first failure; unassignable ⇒ error, not invoked; assignable ⇒ passed unchanged in position; nil ⇒ zero value (fixed and variadic); the variadic tail takes all remaining arguments; helper errors keep their cause chain.",
  "C13": "Lean theorems over generated facts (the only ranges over Go maps in the evaluator are the four frame copies; hash literals range over Order; no assignment through AST-typed variables, program only assigned in Parse, no package-level writes), order-irrelevance of frame copies for any two visiting orders, and transparency of the cache for every history. PARTIAL by nature: Go's map-order randomisation is quantified over, not exhibited.",
  "C14": "Lean theorem lockset_sound (any number of threads, any programs, any schedule) instantiated with the generated lock/access facts of context.go and plush.go: no reachable race on Context.data or the cache; executions write only local state; isolation of read-only sharing. PARTIAL by nature: weak memory and unexecuted interleavings are explored with the race detector, not proved.",
- "C15": "Lean theorems: the line counter is EXACT for every input (curLine = 1 + line feeds consumed so far, part of the lexer invariant of Theorem A); a token inside a tag carries the line it STARTS on (1 + line feeds in front of its first byte, after whitespace and # comments), whatever its look-ahead consumed; parser messages (incl. bad literals) carry the current token's line; every runtime error leaving compile carries a line; a completed statement is no longer blamed while a failed one stays current. Partial: shift invariance as a two-run statement (C15_shift) is checked by the oracle (it follows informally from the exact-counter theorems); multi-line tags are known findings.",
+ "C15": "Lean theorems: the line counter is EXACT for every input (curLine = 1 + line feeds consumed so far, part of the lexer invariant of Theorem A); a token inside a tag carries the line it STARTS on (1 + line feeds in front of its first byte, after whitespace and # comments), whatever its look-ahead consumed; parser messages (incl. bad literals) carry the current token's line; every runtime error leaving compile carries a line; a completed statement is no longer blamed while a failed one stays current. SHIFT INVARIANCE at the scanner is a theorem (C15_shift_scanner: states seeing the same bytes ahead give tokens whose lines differ by exactly the difference of the line counters). Partial: the lift of shift invariance to error messages of whole renders is checked by the oracle; multi-line tags are known findings.",
  "C16": "Lean theorems about evalUserFunction's model: arity error, arguments evaluated in the caller's scope before any binding, body in a fresh child with exactly the parameters bound, the call's value is never a return wrapper and equals the returned value (also through nested blocks), statements after the reached return are not evaluated.",
  "C17": "Lean theorems: a block helper receives what its block renders to (evaluated once, in the given context, through the sink); no block ⇒ error; contentFor emits nothing and only stores the block; what partial/contentOf/block helpers return is inserted unescaped exactly once; missing contentOf ⇒ error. Partial: the inline equivalence over all bodies is decided by the oracle.",
  "C18": "Lean theorems over the TRANSLATED character classes (separators are exactly space/tab/LF/CR; '-' and '.' fuse with identifiers/numbers — the stated exception; punctuation never fuses) and two global theorems about the scanner model: SUFFIX DETERMINISM (inside a tag the token type and text, and what the scanner sees next, depend only on the bytes from the cursor on — for any two inputs, offsets and lines) and LAYOUT INSIGNIFICANCE (any run of blanks, line ends and # comments in front of a token changes neither the token nor what follows; also across two templates). Parser half: tag delimiters and ';' between statements are skipped (step theorems). Partial: the lift from tokens to whole programs (layout independence of parse results and of rendering) is decided by exhaustive correspondence and the metamorphic oracle.",
